@@ -392,7 +392,32 @@ def g_block(rng, fam, nitems, scalars_only=False):
     return items
 
 
+INSIDE = ["metadata_1", "raw_data_2", "powder_data_set", "myloop_", "xloop_1", "nodata", "predata_", "a_data_b", "unloop_",
+          "global_x", "xglobal_", "save_me", "unsave_", "stop", "nonstop_", "x_data_", "DATA", "Metadata_7"]
+
+
+def g_wide_block(rng, kind):
+    """Tables of real-world width: one category with a hundred-odd columns (a row of more than 2048 characters), a column of
+    free text thousands of characters long, and strings that merely CONTAIN a reserved word in the leading column."""
+    if kind == "wide":
+        ncol, ln = rng.randrange(98, 112), 1
+        cols = [["wide_c%d" % i, "C", [g_int(rng) if (i + j) % 3 else g_float(rng, "plain") for j in range(ln)]] for i in range(ncol)]
+        return cols + [["after", "S", g_value(rng, "mixed")]]
+    if kind == "longtext":
+        ln = rng.randrange(1, 4)
+        text = lambda: ["s", " ".join(g_word(rng).replace("'", "").replace('"', "") or "w" for _ in range(rng.randrange(400, 460)))]
+        return [["note_id", "C", [g_int(rng) for _ in range(ln)]], ["note_text", "C", [text() for _ in range(ln)]],
+                ["note_flag", "C", [g_str(rng, 0.0) for _ in range(ln)]], ["long_scalar", "S", text()]]
+    ln = rng.randrange(2, 6)
+    first = [["s", rng.choice(INSIDE)] if rng.random() < 0.7 else g_str(rng, 0.0) for _ in range(ln)]
+    return [["lead_name", "C", first], ["lead_x", "C", [g_value(rng, "mixed") for _ in range(ln)]],
+            ["lead_y", "C", [g_int(rng) for _ in range(ln)]], ["tail", "S", ["s", rng.choice(INSIDE)]]]
+
+
 def g_recipe(seed, fam, shape):
+    if fam == "tables":
+        rng = random.Random(seed)
+        return {"kind": "rt", "source": "random:tables/%s" % shape, "seed": seed, "data": [["tab", g_wide_block(rng, shape)]]}
     """shape: 'single' (one block), 'multi' (2-3 blocks), 'multi-scalars-first' (every block but the
     last holds scalars only)."""
     rng = random.Random(seed)
@@ -443,6 +468,7 @@ def build_recipes(ctx):
         ("numeric", "single", 200, 8000), ("strings", "single", 200, 8000), ("strings", "multi", 60, 3000),
         ("whole", "single", 60, 2000), ("bigint", "single", 50, 2000), ("multiblank", "single", 40, 1500),
         ("outside", "single", 100, 3000),
+        ("tables", "wide", 1, 24), ("tables", "longtext", 0, 8), ("tables", "reserved-inside", 40, 800),
     ]
     recipes = []
     k = 0
